@@ -8,16 +8,33 @@ set_option linter.unusedVariables false
 open Aergo Aergo.DriverLib Aergo.Buffer
 
 /-- An open `ContractState`: its `storage` field is either the staged object of the cache
-(`alias`) or a private `bufferedStorage` created by `OpenContractState`. -/
-inductive Handle where
+(`alias`) or a private `bufferedStorage` created by `OpenContractState`. `bound`: it was opened
+on the working record of a held `AccountState` (`OpenContractState(id, as.State(), …)`, the way
+`contract.Execute` does), so `SetCode` writes the code hash into that record. -/
+inductive HKind where
   | alias
   | priv (st : Storage)
+
+structure Handle where
+  kind : HKind
+  bound : Bool := false
+
+/-- A held `AccountState`, by value: `old` = what `GetAccountState` saw, `new` = the working record,
+`sealed` = it has been put. -/
+structure Held where
+  old : Option AVal
+  new : AVal
+  sealed : Bool := false
+
+def emptyAVal : AVal := { nonce := 0, sroot := [] }
 
 structure Sess where
   na : Nat := 0
   nk : Nat := 0
   db : SDB := SDB.new []
   handles : AMap Handle := []
+  held : AMap Held := []
+  raws : List Nat := []       -- code tokens in the store (SetCode -> SetRawKV writes at call time)
   snaps : List BlockSnap := []
   committed : List (AMap AVal) := []
   undef : Bool := false      -- the model left an operation undefined; the rest of the session is void
@@ -34,13 +51,22 @@ def showSVal : SVal → String
 /-- the storage a handle (or, without one, a temporary `OpenContractStateAccount`) reads -/
 def storageOf (s : Sess) (c : Nat) : Res Storage :=
   match s.handles.get c with
-  | some (.priv st) => .found st
+  | some ⟨.priv st, _⟩ => .found st
   | _ => s.db.openStorage c
+
+def showAVal (v : AVal) : String :=
+  if v.bal = 0 ∧ v.code = 0 then toString v.nonce else s!"{v.nonce}/{v.bal}/{v.code}"
+
+def insertSorted (x : Nat) : List Nat → List Nat
+  | [] => [x]
+  | y :: t => if x < y then x :: y :: t else if x = y then y :: t else y :: insertSorted x t
+
+def showRaw (s : Sess) : String := s!"raw={joinWith "," (s.raws.map toString)}"
 
 def readsLine (s : Sess) : String :=
   let accts := (List.range s.na).map fun a =>
     match s.db.getState a with
-    | .found (some v) => toString v.nonce
+    | .found (some v) => showAVal v
     | .found none => "-"
     | _ => "panic"
   let stor := (List.range s.na).flatMap fun c =>
@@ -51,6 +77,11 @@ def readsLine (s : Sess) : String :=
         | .found v => showSVal v
         | _ => "panic"
       | _ => "panic"
+  let has := (List.range s.na).flatMap fun c =>
+    (List.range s.nk).map fun k =>
+      match storageOf s c with
+      | .found st => if st.hasKey k then "1" else "0"
+      | _ => "p"
   let expA := match s.db.buf.exportAll with
     | some l => joinWith "," (l.map fun (e : Nat × AVal) => toString e.1)
     | none => "panic"
@@ -60,10 +91,10 @@ def readsLine (s : Sess) : String :=
     | none => s!" {tag}{c}[panic]"
   let expC := String.join (s.db.cache.map fun p => expS "c" p.1 p.2)
   let expH := String.join (s.handles.filterMap fun p =>
-    match p.2 with
+    match p.2.kind with
     | .priv st => some (expS "h" p.1 st)
     | .alias => none)
-  s!"A {" ".intercalate accts} | S {" ".intercalate stor} | X {expA}{expC}{expH}"
+  s!"A {" ".intercalate accts} | S {" ".intercalate stor} | H {String.join has} | X {expA}{expC}{expH}"
 
 def showSnap (sn : BlockSnap) : String :=
   s!"snap={sn.state}/{joinWith "," (sn.storage.map fun p => s!"{p.1}:{p.2}")}"
@@ -72,17 +103,21 @@ def showSnap (sn : BlockSnap) : String :=
 def withHandle (s : Sess) (c : Nat) (f : Storage → Option Storage) : Option Sess :=
   match s.handles.get c with
   | none => none
-  | some (.priv st) =>
+  | some ⟨.priv st, b⟩ =>
     match f st with
-    | some st' => some { s with handles := s.handles.set c (.priv st') }
+    | some st' => some { s with handles := s.handles.set c ⟨.priv st', b⟩ }
     | none => some { s with undef := true }
-  | some .alias =>
+  | some ⟨.alias, _⟩ =>
     match s.db.cache.get c with
     | none => none
     | some st =>
       match f st with
       | some st' => some { s with db := { s.db with cache := s.db.cache.set c st' } }
       | none => some { s with undef := true }
+
+/-- before `Update` (and at the end of a transaction) no `AccountState` is kept; handles lose their binding -/
+def dropHeld (s : Sess) : Sess :=
+  { s with held := [], handles := s.handles.map fun p => (p.1, { p.2 with bound := false }) }
 
 def answer (s : Sess) (head : String) : Sess × String :=
   if s.undef then (s, "undef") else (s, s!"{head} | {readsLine s}")
@@ -106,21 +141,67 @@ def c12Step (s : Sess) (line : String) : Sess × String :=
       | .found ov =>
         let v : AVal := match ov with
           | some v => { v with nonce := n }
-          | none => ⟨n, []⟩
+          | none => { nonce := n, sroot := [] }
         answer { s with db := s.db.putState a v } "ok"
       | _ => (s, "panic")
+    | "aget", [some a] =>
+      if a < s.na then
+        match s.db.getState a with
+        | .found ov =>
+          let unbind := s.handles.map fun p => if p.1 = a then (p.1, { p.2 with bound := false }) else p
+          answer { s with held := s.held.set a { old := ov, new := ov.getD emptyAVal }, handles := unbind } "ok"
+        | _ => (s, "panic")
+      else (s, "bad-op")
+    | "anonce", [some a, some n] =>
+      match s.held.get a with
+      | some h => if h.sealed then (s, "bad-op") else
+        answer { s with held := s.held.set a { h with new := { h.new with nonce := n } } } "ok"
+      | none => (s, "bad-op")
+    | "abal", [some a, some n] =>
+      match s.held.get a with
+      | some h => if h.sealed then (s, "bad-op") else
+        answer { s with held := s.held.set a { h with new := { h.new with bal := h.new.bal + n } } } "ok"
+      | none => (s, "bad-op")
+    | "areset", [some a] =>
+      match s.held.get a with
+      | some h => if h.sealed then (s, "bad-op") else
+        answer { s with held := s.held.set a { h with new := h.old.getD emptyAVal } } "ok"
+      | none => (s, "bad-op")
+    | "aput", [some a] =>
+      match s.held.get a with
+      | some h => if h.sealed then (s, "bad-op") else
+        answer { s with db := s.db.putState a h.new, held := s.held.set a { h with sealed := true } } "ok"
+      | none => (s, "bad-op")
+    | "code", [some c, some t] =>
+      match s.handles.get c, s.held.get c with
+      | some hd, some h =>
+        if hd.bound && !h.sealed then
+          let s' := { s with held := s.held.set c { h with new := { h.new with code := t } }, raws := insertSorted t s.raws }
+          answer s' (showRaw s')
+        else (s, "bad-op")
+      | _, _ => (s, "bad-op")
+    | "kill", [] => answer { s with handles := [], held := [] } "ok"
     | "open", [some c] =>
+      let bound := match s.held.get c with
+        | some h => !h.sealed
+        | none => false
       match s.db.cache.get c with
-      | some _ => answer { s with handles := s.handles.set c .alias } "ok"
+      | some _ => answer { s with handles := s.handles.set c ⟨.alias, bound⟩ } "ok"
       | none =>
-        match s.db.openStorage c with
-        | .found st => answer { s with handles := s.handles.set c (.priv st) } "ok"
+        -- a bound handle reads the storage root from the held working record, else from the visible state
+        let r : Res Storage := if bound then
+            match s.held.get c with
+            | some h => .found (Storage.new h.new.sroot)
+            | none => .panic
+          else s.db.openStorage c
+        match r with
+        | .found st => answer { s with handles := s.handles.set c ⟨.priv st, bound⟩ } "ok"
         | _ => (s, "panic")
     | "stage", [some c] =>
       match s.handles.get c with
       | none => (s, "bad-op")
-      | some .alias => answer { s with handles := s.handles.erase c } "ok"
-      | some (.priv st) => answer { s with db := s.db.stage c st, handles := s.handles.erase c } "ok"
+      | some ⟨.alias, _⟩ => answer { s with handles := s.handles.erase c } "ok"
+      | some ⟨.priv st, _⟩ => answer { s with db := s.db.stage c st, handles := s.handles.erase c } "ok"
     | "set", [some c, some k, some v] =>
       match withHandle s c (fun st => some (st.setData k v)) with
       | some s' => answer s' "ok"
@@ -143,19 +224,19 @@ def c12Step (s : Sess) (line : String) : Sess × String :=
     | "roll", [some i] =>
       match s.snaps[i]? with
       | none => (s, "bad-op")
-      | some sn => orUndef s ((s.db.blockRollback sn).map fun db => { s with db := db, handles := [] }) "ok"
+      | some sn => orUndef s ((s.db.blockRollback sn).map fun db => { s with db := db, handles := [], held := [] }) "ok"
     | "update", [] =>
-      orUndef s (s.db.update.map fun db => { s with db := db }) "ok"
+      orUndef s (s.db.update.map fun db => { (dropHeld s) with db := db }) "ok"
     | "commit", [] =>
       orUndef s ((s.db.update.bind SDB.commit).map fun db =>
-        { s with db := db, committed := s.committed ++ [db.trie] }) "ok"
+        { (dropHeld s) with db := db, committed := s.committed ++ [db.trie] }) (showRaw s)
     | "commit0", [] =>
       orUndef s (s.db.commit.map fun db =>
-        { s with db := db, committed := s.committed ++ [db.trie] }) "ok"
+        { (dropHeld s) with db := db, committed := s.committed ++ [db.trie] }) (showRaw s)
     | "reopen", [some i] =>
       match s.committed[i]? with
       | none => (s, "bad-op")
-      | some t => answer { s with db := SDB.new t, handles := [] } "ok"
+      | some t => answer { s with db := SDB.new t, handles := [], held := [] } "ok"
     | _, _ => (s, "bad-op")
   | [] => (s, "bad-op")
 
